@@ -1,45 +1,28 @@
 #!/usr/bin/env python3
-"""Runs every kept seeded change (/verif/seeded/<id>/patch.diff) against the quick checks of its own property
-(plus extra properties given in meta.json 'also_check'), one at a time on /repo (apply, check, undo), and records the
-outcome in seeded/<id>/meta.json ('detected_by') and in seeded/STATUS.md. Usage: seed_status.py [seed-id ...]"""
-import json, os, subprocess, sys, glob, re
-V='/verif'
-claimed=set(c['property_id'] for c in json.load(open(V+'/MANIFEST.json'))['checks'])
-ids=sys.argv[1:] or sorted(os.path.basename(d) for d in glob.glob(V+'/seeded/c*') if os.path.isdir(d))
-if subprocess.run(['git','-C','/repo','status','--porcelain'],capture_output=True,text=True).stdout.strip():
-    sys.exit('/repo is not clean')
-rows=[]
-for sid in ids:
-    mp=f'{V}/seeded/{sid}/meta.json'
-    m=json.load(open(mp))
-    props=[m['property']]+m.get('also_check',[])
+"""Runs every kept seeded change (/verif/seeded/<id>/patch.diff) against the quick check of its own property (plus extra
+properties given in meta.json 'also_check'), each on a scratch copy of /repo's working tree (never on /repo itself), and
+records the outcome in seeded/<id>/meta.json ('detected_by') and in seeded/STATUS.md. Usage: seed_status.py [seed-id ...]"""
+import json, os, sys, glob
+from concurrent.futures import ThreadPoolExecutor
+sys.path.insert(0, os.path.dirname(os.path.abspath(__file__)))
+import seed_try
+V = '/verif'
+ids = sys.argv[1:] or sorted(os.path.basename(d) for d in glob.glob(V + '/seeded/c*') if os.path.isdir(d))
+rows = []
+def run(sid):
+    mp = f'{V}/seeded/{sid}/meta.json'
+    m = json.load(open(mp))
     if m.get('obsolete_on_current_tree'):
-        rows.append((sid,m['property'],'OBSOLETE on the repaired tree',m['obsolete_on_current_tree'][:160]))
-        continue
-    r=subprocess.run(['git','-C','/repo','apply',f'{V}/seeded/{sid}/patch.diff'],capture_output=True,text=True)
-    if r.returncode!=0:
-        rows.append((sid,m['property'],'patch does not apply to current /repo',''))
-        continue
-    det={}
-    try:
-        for p in props:
-            if p not in claimed:
-                det[p]={'result':'property not claimed'}
-                continue
-            out=f'/tmp/seedout/{sid}'
-            os.makedirs(out,exist_ok=True)
-            pr=subprocess.run([V+'/bin/dcverif','check',p,'--repo','/repo','--out',out,'--known',V+'/known_findings.json'],capture_output=True,text=True)
-            keys=re.findall(r'^  (C\d+/\S+@\S+) \[(violated|undecided)\]',pr.stdout,re.M)
-            det[p]={'exit':pr.returncode,'obligations':[k for k,_ in keys][:8]}
-    finally:
-        subprocess.run(['git','-C','/repo','checkout','--','.'])
-        subprocess.run(['git','-C','/repo','clean','-fdq'])
-    m['detected_by']=det
-    json.dump(m,open(mp,'w'),indent=1)
-    own=det.get(m['property'],{})
-    rows.append((sid,m['property'],'DETECTED' if own.get('exit')==1 else ('not claimed' if 'result' in own else 'MISSED'),', '.join(own.get('obligations',[])[:3])))
+        return (sid, m['property'], 'OBSOLETE on the repaired tree', m['obsolete_on_current_tree'][:160])
+    s, prop, st, info, det = seed_try.one(f'{V}/seeded/{sid}', False)
+    if det:
+        m['detected_by'] = {p: {'exit': v['exit'], 'obligations': v['obligations']} for p, v in det.items()}
+        json.dump(m, open(mp, 'w'), indent=1)
+    return (sid, prop, st, info.split(' | also')[0])
+with ThreadPoolExecutor(4) as ex:
+    rows = list(ex.map(run, ids))
 if not sys.argv[1:]:
-    with open(V+'/seeded/STATUS.md','w') as f:
+    with open(V + '/seeded/STATUS.md', 'w') as f:
         f.write('# Seeded changes vs. quick checks\n\n| seed | property | outcome | first obligations reported |\n|---|---|---|---|\n')
-        for r in rows: f.write('| %s | %s | %s | %s |\n'%r)
-for r in rows: print('%-8s %-4s %-10s %s'%r)
+        for r in rows: f.write('| %s | %s | %s | %s |\n' % r)
+for r in rows: print('%-8s %-4s %-10s %s' % r)
